@@ -36,7 +36,8 @@ def run_scenario(args):
     r = None
     try:
         r = Run(prog, entry, K=sc.get("K", 60), overrides=overrides, map_perm=sc.get("map_perm", False),
-                max_instr=sc.get("max_instr", 400000), reduce=sc.get("reduce", True), verbose=verbose)
+                max_instr=sc.get("max_instr", 400000), reduce=sc.get("reduce", True), verbose=verbose,
+                inits=sc.get("inits", [pkgpath] + ([] if pkgpath.endswith("/schema") else ["github.com/olive-io/bpmn/schema"])))
         r.execute()
         m = r.m
         tmo = sc.get("solver_timeout_ms", 120000)
